@@ -16,7 +16,7 @@ from concurrent.futures import ThreadPoolExecutor
 import common, netlist
 from common import quiet, zlit, zlist, blit
 
-NEEDED = ['Reg_clock', 'SynchronousMemory_clock', 'AutoReset_clock', 'Wire_put', 'Wire_prepare', 'Mux2_propagate', 'Or2_propagate',
+NEEDED = ['Reg_clock', 'SynchronousMemory_clock', 'DualPortSynchronousMemory_clock', 'AutoReset_clock', 'Wire_put', 'Wire_prepare', 'Mux2_propagate', 'Or2_propagate',
           'And2_propagate', 'Not_propagate', 'Buf_propagate', 'Constant_propagate', 'AddCarryIn_propagate', 'BitsLSBF_propagate']
 PRELUDE = 'From V Require Import Base.PyInt Model.SeqBlocks Model.SeqBlocksRun Spec.C09.\n'
 PRELUDE_SPEC = 'From V Require Import Base.PyInt Model.SeqSpecRun Spec.C09.\n'        # independent of the regenerated definitions
@@ -410,7 +410,32 @@ class BAutoReset(Block):
     def spec(self, p): return 'ar_spec_trace %d' % p['w']
 
 
-BLOCKS = [BReg(), BTReg(), BCounter(), BModCounter(), BStepUp(), BDelay(), BPipe(), BEdge(), BClkDiv(), BShift(), BStack(), BMem(), BAutoReset()]
+class BDualPort(Block):
+    name = 'DualPortSynchronousMemory'
+    def configs(self, quick):
+        cs = [dict(aw=1, dw=1, wr=1), dict(aw=2, dw=4, wr=4), dict(aw=3, dw=8, wr=5)]
+        if not quick: cs += [dict(aw=1, dw=2, wr=2), dict(aw=5, dw=6, wr=6)]
+        return cs
+    def build(self, p):
+        py4hw = P()
+        with quiet():
+            hw = py4hw.HWSystem()
+            aw, dw, wr = p['aw'], p['dw'], p['wr']
+            W = hw.wire
+            raa, waa, wa, rda, wda = W('raa', aw), W('waa', aw), W('wa', 1), W('rda', wr), W('wda', dw)
+            rab, wab, wb, rdb, wdb = W('rab', aw), W('wab', aw), W('wb', 1), W('rdb', wr), W('wdb', dw)
+            m = py4hw.logic.storage.DualPortSynchronousMemory(hw, 'mem', raa, waa, wa, rda, wda, rab, wab, wb, rdb, wdb)
+        return Inst(hw, [raa, waa, wa, wda, rab, wab, wb, wdb], lambda: [], lambda: [rda.get(), rdb.get()], lambda: list(m.data))
+    def alphabet(self, p): return prod(R(p['aw']), R(p['aw']), R(1), R(p['dw']), R(p['aw']), R(p['aw']), R(1), R(p['dw'])) if 4 * p['aw'] + 2 * p['dw'] <= 6 else None
+    def rand_row(self, p, rng):
+        k = min(1 << p['aw'], 3)        # a few hot addresses: reads meet earlier and same-edge writes of either port
+        return [rng.randrange(k), rng.randrange(k), int(rng.random() < .6), rng.randrange(1 << p['dw']),
+                rng.randrange(k), rng.randrange(k), int(rng.random() < .5), rng.randrange(1 << p['dw'])]
+    def model(self, p): return 'dp_trace %d %d %d' % (p['aw'], p['wr'], p['wr'])
+    def spec(self, p): return 'dp_spec_trace %d %d' % (p['wr'], p['wr'])
+
+
+BLOCKS = [BReg(), BTReg(), BCounter(), BModCounter(), BStepUp(), BDelay(), BPipe(), BEdge(), BClkDiv(), BShift(), BStack(), BMem(), BDualPort(), BAutoReset()]
 BY_NAME = {b.name: b for b in BLOCKS}
 
 
@@ -547,10 +572,10 @@ def clean(p): return {k: v for k, v in p.items() if not k.startswith('_')}
 
 # ------------------------------------------------------------------ DualPortSynchronousMemory (not translated: its clock() does not run)
 def dualport(ctx):
-    """finding C09-dualport-undefined-names: clock() reads self.writea / wadd / self.writedataa ... which do not exist.
-    While it raises it is reported as the known finding.  If it stops raising (repaired upstream), the repaired block is
-    held to the memory clause: every read port returns the content before the edge, except that port b may already see
-    port a's same-edge write (sequential order of the two ports inside clock() is not fixed by the property)."""
+    """permanent plain-Python two-port reference, independent of the Coq model: every edge, both read ports return the content
+    before the edge (also when the other port writes that cell at this edge); then port a's write, then port b's (b wins).
+    Both former findings on this block are FIXED (/repo 057b2af: clock() raised on undefined names; c99dcdd: port b saw port a's
+    same-edge write): fixed entries suppress nothing, so a raise or a deviation is a VIOLATION."""
     py4hw = P()
     def mk(aw, dw):
         with quiet():
@@ -589,16 +614,14 @@ def dualport(ctx):
             with quiet(): sim.clk(1)
             ctx.count(('DualPortSynchronousMemory', aw, dw))
             exp_a = [ref[i['raa']]]
-            exp_b = [ref[i['rab']]] + ([i['wda']] if i['wa'] and i['waa'] == i['rab'] else [])
+            exp_b = [ref[i['rab']]]
             got = (ws['rda'].get(), ws['rdb'].get())
             nxt = list(ref)
-            alts = [nxt]
             if i['wa']: nxt[i['waa']] = i['wda']
             if i['wb']: nxt[i['wab']] = i['wdb']
-            if i['wa'] and i['wb'] and i['waa'] == i['wab']:
-                alt = list(nxt); alt[i['waa']] = i['wda']; alts.append(alt)
+            alts = [nxt]
             if got[0] not in exp_a or got[1] not in exp_b or list(m.data) not in alts:
-                ctx.violation({'what': 'DualPortSynchronousMemory does not behave as a two-port memory with read-before-write', 'block': 'DualPortSynchronousMemory',
+                ctx.violation({'what': 'DualPortSynchronousMemory does not behave as a two-port memory with read-before-write on both ports (Python reference)', 'block': 'DualPortSynchronousMemory',
                                'recipe': {'block': 'DualPortSynchronousMemory', 'params': {'aw': aw, 'dw': dw}}, 'inputs': hist,
                                'expected': {'readdata_a in': exp_a, 'readdata_b in': exp_b, 'data in': alts}, 'observed': {'readdata': got, 'data': list(m.data)}})
                 return
@@ -767,8 +790,8 @@ def run(ctx):
 def replay(rp):
     rec = rp.get('recipe') or {}
     name = rec.get('block')
-    if name == 'DualPortSynchronousMemory':
-        class C:                                   # minimal ctx
+    if name == 'DualPortSynchronousMemory' and not (rp.get('inputs') and isinstance(rp['inputs'][0], list) and isinstance(rp.get('expected'), list)):
+        class C:            # a violation of the plain-Python two-port reference: re-run that reference                                   # minimal ctx
             known, quick, seed = [], True, 1
             def count(self, *a, **k): pass
             def known_finding(self, *a): pass
